@@ -119,7 +119,7 @@ func TestGenCorpus(t *testing.T) {
 // one that fails — run it against the UNFIXED tree, so every committed regression case is
 // known to fail there.
 //
-//   cd /verif/harness && C07_MAKE_REGRESS=/verif/regress/C07 go test -tags verif -count=1 -run '^TestMakeRegress$' -v ./c07
+//	cd /verif/harness && C07_MAKE_REGRESS=/verif/regress/C07 go test -tags verif -count=1 -run '^TestMakeRegress$' -v ./c07
 func TestMakeRegress(t *testing.T) {
 	dir := os.Getenv("C07_MAKE_REGRESS")
 	if dir == "" {
